@@ -38,7 +38,7 @@ def run(ctx, res):
     builder.rules_new_clear(prog, res)
     m = builder.BuildModel(prog, res)
     builder.rules_frame_shape(prog, res, m)
-    dispatch.coherence(prog, res, ctx.repo)
+    dispatch.coherence(prog, res, ctx.repo, dec_keys=dispatch.ROUNDTRIP_KEYS)
     crcq.rule_a_crc(ctx, res)
     import msm
     msm.rule_guards(prog, engine.Filtered(res, {"M-guards"}))
